@@ -215,8 +215,7 @@ def check_model(ctx: Ctx, rep: Report) -> None:
                                                   f"resolve, which the evaluator does not model", stmt=n.name, **where(m, n))
             if isinstance(n, ast.Call):
                 d = _dotted(n.func)
-                if d in DYNAMIC_CALLS or (d == "getattr" and (len(n.args) < 2 or not isinstance(n.args[1], ast.Constant))) or \
-                        (d is not None and d.endswith(".__setattr__")) or (d is not None and d.endswith(".__dict__.update")):
+                if d in DYNAMIC_CALLS or (d is not None and d.endswith(".__setattr__")) or (d is not None and d.endswith(".__dict__.update")):
                     r_hook.fail(f"{m.name}:{getattr(n, 'lineno', 0)}", f"`{ast.unparse(n)[:80]}`: a dynamic facility that can create or rebind "
                                                                      f"attributes behind the analysis", stmt=f"dynamic {d}", **where(m, n))
             if isinstance(n, ast.Subscript) and isinstance(n.ctx, (ast.Store, ast.Del)) and isinstance(n.value, ast.Attribute) and \
